@@ -154,16 +154,21 @@ Definition cells_of_postings (ps : list posting) : list (account * commodity) :=
 Definition cells_of_bookings (bs : list booking) : list (account * commodity) :=
   flat_map (fun b => [(b_credit b, b_com b); (b_debit b, b_com b)]) bs.
 
+Definition str_eq_dec : forall a b : str, {a = b} + {a <> b} := list_eq_dec Z.eq_dec.
+Definition account_eq_dec : forall a b : account, {a = b} + {a <> b} := list_eq_dec str_eq_dec.
+Definition cell_eq_dec (x y : account * commodity) : {x = y} + {x <> y}.
+Proof. decide equality; [apply str_eq_dec|apply account_eq_dec]. Defined.
+
 (* conservation on every mentioned cell -- including the accrual account's cells: the accrual
    account must end with what the source booked on it, which is zero when it does not occur
    in the source transaction *)
 Definition conserve_b (bs : list booking) (ts : list txn) : bool :=
   forallb (fun ac => Qeq_bool (booked_r (fst ac) (snd ac) (all_postings ts)) (booked_src_r (fst ac) (snd ac) bs))
-          (cells_of_postings (all_postings ts) ++ cells_of_bookings bs).
+          (nodup cell_eq_dec (cells_of_postings (all_postings ts) ++ cells_of_bookings bs)).
 
 (* the accrual account nets to zero (required when it is not an account of the source) *)
 Definition accrual_zero_b (acc : account) (ts : list txn) : bool :=
-  forallb (fun p => Qeq_bool (booked_r acc (p_com p) (all_postings ts)) 0) (all_postings ts).
+  forallb (fun c => Qeq_bool (booked_r acc c (all_postings ts)) 0) (nodup str_eq_dec (map p_com (all_postings ts))).
 
 Definition in_bookings_b (a : account) (bs : list booking) : bool :=
   existsb (fun b => a_eqb (b_credit b) a || a_eqb (b_debit b) a) bs.
